@@ -8,6 +8,7 @@ CONSTANTS
   KF_V1OmitsHDInfo = FALSE
   KF_V12OmitsEmpty = FALSE
   KF_MarkedFlagUncovered = FALSE
+  KF_CoinbaseRider = FALSE
 CONSTRAINT Book
 POSTCONDITION Post
 CHECK_DEADLOCK FALSE
